@@ -63,6 +63,7 @@ func checkC04(r *Run) {
 	checkBlame(r, protoScope, 95)
 	checkBytesCoverage(r, "C04.T2", protoScope, 2)
 	checkSentinelErrors(r, "C04.B5")
+	checkValidateBeforeUse(r, Scope{Include: []string{"pkg/mpc/", "pkg/ot/", "pkg/network/echo/"}, Exclude: []string{"pkg/mpc/sharing/"}}, 60)
 }
 func checkC05(r *Run) {
 	genericGuards(r)
